@@ -288,8 +288,8 @@ def hugr_docs():
         return ops.Custom(name, tys.FunctionType(ins, outs, list(reqs)), desc, extn, list(args))
 
     docs = []
-    for reqs_style in ("owner", "empty"):
-        rq = (lambda e: [e]) if reqs_style == "owner" else (lambda e: [])
+    for reqs_style in ("owner", "empty", "extra"):
+        rq = {"owner": (lambda e: [e]), "empty": (lambda e: []), "extra": (lambda e: ["another.ext", e, "zz.last"])}[reqs_style]
         d = Dfg(ta)
         n = d.add(custom("x.ext", "oa", [ta], [ta, tys.Bool], rq("x.ext"), desc="doc text")(d.inputs()[0]))
         d.set_outputs(*n)
@@ -396,6 +396,20 @@ def check_hugr(di, rspec):
     j1 = json.loads(h.to_json())
     if j0["edges"] != j1["edges"] or len(j0["nodes"]) != len(j1["nodes"]):
         fails.append(("hugr:graph-changed", f"{name}: edges or node count changed by resolution"))
+    # using the resolved operations (their names, equality, signatures, a drawing) is not a way to change the document
+    for n in h:
+        op = h[n].op
+        for f in (lambda: op.name(), lambda: op == op, lambda: repr(op), lambda: op.outer_signature(), lambda: op.num_out, lambda: getattr(op, "ext_op", None)):
+            try:
+                f()
+            except Exception:  # noqa: BLE001
+                pass
+    try:
+        h.render_dot()
+    except Exception:  # noqa: BLE001
+        pass
+    if hugr_view(h) != v1 or json.loads(h.to_json()) != j1:
+        fails.append(("hugr:document-changed-by-use", f"{name} under {rspec}: after looking at the resolved operations (name, ==, signature, drawing) the HUGR serializes differently"))
     v2 = None
     try:
         h.resolve_extensions(reg)
